@@ -82,6 +82,8 @@ def run(R):
         r5(R, m)
     if R.want("C08.R6"):
         r6(R, m)
+    if R.want("C08.R8"):
+        r8(R)
     if R.want("C08.R7"):
         # "indexes ... within the hkl tolerance": the gate's count (cImageD11.score), the peaks claimed (score_and_assign via
         # getind), the refinement (score_and_refine) and the Python references use ONE predicate.  Shared with C06.R3 / R4.
@@ -806,3 +808,42 @@ def r5(R, m):
                 R.check(nows(src(a.value)) != k, "C08.R5", REL, a.lineno, "indexer.getind", src(a),
                         "the scratch label array is pre-filled with the very label that marks an indexed peak")
 
+
+
+# --------------------------------------------------------------------------------------------------
+def r8(R):
+    R.rule("C08.R8", "unitcell.getanglehkls (hkl pairs per pair of ring NUMBERS, input of orient): the cache is dropped whenever the rings "
+                     "may have been renumbered - its validity test compares a stamp that makerings rewrites (the ring tolerance) as well as "
+                     "the B matrix; otherwise a second ring assignment with another ds tolerance orients peaks with the hkls of other rings")
+    UC = "ImageD11/unitcell.py"
+    um = pyfacts.module(R, UC)
+    fn = um.func("unitcell.getanglehkls")
+    mk = um.func("unitcell.makerings")
+    attrs_read = lambda node: set(x.attr for x in ast.walk(node) if isinstance(x, ast.Attribute) and isinstance(x.value, ast.Name) and x.value.id == "self"
+                                  and isinstance(x.ctx, ast.Load))
+    assigned_by_makerings = set(t.attr for a in ast.walk(mk) if isinstance(a, ast.Assign) for t in a.targets
+                                if isinstance(t, ast.Attribute) and isinstance(t.value, ast.Name) and t.value.id == "self")
+    cache = [a for a in ast.walk(fn) if isinstance(a, ast.Assign) and any(isinstance(t, ast.Attribute) and src(t.value) == "self" for t in a.targets)
+             and isinstance(a.value, ast.Dict)]
+    R.shape(len(cache) == 1, "C08.R8", UC, "unitcell.getanglehkls", "the statement that starts a new cache dictionary")
+    cname = cache[0].targets[0].attr
+    reset_if = getattr(cache[0], "_parent", None)
+    R.shape(isinstance(reset_if, ast.If), "C08.R8", UC, "unitcell.getanglehkls", "the validity test around the cache reset")
+    # what the cached values are computed from (besides the cache itself)
+    miss = [i_ for i_ in ast.walk(fn) if isinstance(i_, ast.If) and i_ is not reset_if and isinstance(i_.test, ast.Compare)
+            and isinstance(i_.test.ops[0], (ast.NotIn, ast.In)) and cname in src(i_.test)]
+    R.shape(len(miss) == 1, "C08.R8", UC, "unitcell.getanglehkls", "the 'key not in cache' branch that computes a missing entry")
+    mbody = miss[0].body if isinstance(miss[0].test.ops[0], ast.NotIn) else miss[0].orelse
+    inputs = set()
+    for b_ in mbody:
+        inputs |= attrs_read(b_)
+    inputs -= {cname}
+    ring_inputs = sorted(inputs & assigned_by_makerings)
+    R.shape(bool(ring_inputs), "C08.R8", UC, "unitcell.getanglehkls", "ring tables (attributes written by makerings) among the inputs of the cached pairs")
+    tested = attrs_read(reset_if.test) - {cname}
+    stamps = sorted((tested & assigned_by_makerings) - set(ring_inputs))
+    R.check(bool(stamps), "C08.R8", UC, reset_if.lineno, "unitcell.getanglehkls",
+            "validity test reads %s; makerings rewrites %s" % (sorted(tested), stamps or "none of them"),
+            "the cached hkl pairs are looked up by ring number and computed from %s, which makerings rebuilds, but the validity test "
+            "compares nothing that makerings changes: after makerings(limit, another tolerance) the entries describe other rings" % ring_inputs)
+    R.check("B" in tested, "C08.R8", UC, reset_if.lineno, "unitcell.getanglehkls", "validity test compares the B matrix", "a changed cell keeps the old pairs")
